@@ -170,6 +170,13 @@ def crash_case(base_dir, base_events, shape, seed, crash_at, truncate=None):
             if ok:
                 wld.probe("rc1", s)
                 s.close()
+            if crash_at is not None and crash_at % 2 == 1:
+                # the first transaction after the crash changes nothing: its commit still is a commit (what the
+                # dead writer left behind is cleaned up by it)
+                writers.insert(1, "wr0")
+                ok, wr0 = guarded("wr0", "writer", lambda: ix2.writer(timeout=0.0))
+                if ok:
+                    guarded("wr0", "empty-commit-after-crash", wr0.commit)
             ok, wr = guarded("wr1", "writer", lambda: ix2.writer(timeout=0.0))
             if ok:
                 log2.emit("api", op="delete", key="after")
